@@ -1,12 +1,16 @@
 use crate::mon::Check;
 
 pub mod hist;
+pub mod libq;
 pub mod norm;
 
 pub fn all() -> Vec<Box<dyn Check>> {
     let mut v: Vec<Box<dyn Check>> = vec![];
     for p in ["C01", "C02", "C06", "C07"] {
         v.push(Box::new(norm::NormCheck { prop: p }));
+    }
+    for p in ["C05", "C15", "C17", "C18"] {
+        v.push(Box::new(libq::LibQ { prop: p }));
     }
     for p in ["C04", "C20"] {
         v.push(Box::new(hist::HistCheck { prop: p }));
@@ -22,6 +26,13 @@ pub fn debug(args: &[String]) {
     match args.first().map(|s| s.as_str()) {
         Some("gen") => norm::debug_gen(args),
         Some("fmt") => norm::debug_fmt(args),
+        Some("case") => {
+            // vcheck debug case <Cxx> <tier> <seed> <case>: run one case in-process and print the report
+            let c = find(&args[1]).unwrap();
+            crate::mon::install_panic_recorder();
+            let r = c.run_case(crate::mon::Tier::parse(&args[2]), args[3].parse().unwrap(), args[4].parse().unwrap());
+            println!("{}", serde_json::to_string_pretty(&r).unwrap());
+        }
         _ => eprintln!("debug what?"),
     }
 }
